@@ -1,5 +1,134 @@
-"""Sanitizer passes (secondary oracle): Miri / TSan / ASan over small dedicated workloads."""
+"""Sanitizer passes (secondary oracle): Miri / ThreadSanitizer / AddressSanitizer over the small
+dedicated workloads of /verif/harness/san (bin `sanwl`). Thorough tier only.
+
+A report is attributed to the property (and becomes a VIOLATION) only if a `mini_mcmc::` frame
+appears in it, or if the workload's own functional assertion failed; reports entirely inside
+third-party crates are recorded as `third_party_reports` and do not fail the check.
+"""
+import os, re, subprocess, time
+
+SAN = "/verif/harness/san"
+TARGET = "x86_64-unknown-linux-gnu"
+
+# property -> [(tool, workload, size)]
+PLAN = {
+    "C07": [("miri", "concurrent", 1), ("miri", "runner", 1), ("tsan", "concurrent", 3)],
+    "C09": [("miri", "runner", 2), ("tsan", "runner", 4)],
+    "C10": [("miri", "proto", 1), ("tsan", "proto", 1)],
+    "C11": [("asan", "stats", 2), ("miri", "stats", 1)],
+    "C12": [("asan", "stats", 2)],
+    "C13": [("miri", "trackers", 1), ("asan", "trackers", 4)],
+    "C16": [("miri", "cat", 1)],
+    "C18": [("miri", "cat", 1)],
+    "C17": [("asan", "io", 3)],
+}
+
+MIRIFLAGS = "-Zmiri-disable-isolation -Zmiri-tree-borrows -Zmiri-permissive-provenance -Zmiri-ignore-leaks"
+
+
+def _env(extra):
+    e = dict(os.environ, CARGO_NET_OFFLINE="true")
+    e.update(extra)
+    return e
+
+
+def _build(tool, log):
+    t0 = time.time()
+    if tool == "miri":
+        # `cargo miri run` builds on demand; warm the build with the cheapest workload
+        return True, 0.0
+    if tool == "tsan":
+        cmd = ["cargo", "+nightly", "build", "--offline", "-Zbuild-std", "--target", TARGET]
+        env = _env({"RUSTFLAGS": "-Zsanitizer=thread", "CARGO_TARGET_DIR": f"{SAN}/target-tsan"})
+    else:
+        cmd = ["cargo", "+nightly", "build", "--offline", "--features", "io", "--target", TARGET]
+        env = _env({"RUSTFLAGS": "-Zsanitizer=address -Cforce-frame-pointers=yes", "CARGO_TARGET_DIR": f"{SAN}/target-asan"})
+    p = subprocess.run(cmd, cwd=SAN, env=env, stdout=subprocess.PIPE, stderr=subprocess.STDOUT, text=True)
+    if p.returncode != 0:
+        log(f"   sanitizer build ({tool}) failed:\n" + p.stdout[-1500:])
+        return False, time.time() - t0
+    return True, time.time() - t0
+
+
+def _classify(tool, out, rc):
+    """returns (reports attributed to mini-mcmc, third-party reports)"""
+    mine, third = [], []
+    blocks = []
+    if tool == "miri":
+        blocks = re.findall(r"(error: (?:Undefined Behavior|unsupported operation|.*[Dd]ata race|memory leaked).*?)(?=\n\n\S|\Z)", out, flags=re.S)
+    elif tool == "tsan":
+        blocks = re.findall(r"(WARNING: ThreadSanitizer:.*?={10,})", out, flags=re.S)
+    else:
+        blocks = re.findall(r"(ERROR: (?:AddressSanitizer|LeakSanitizer).*?(?:ABORTING|\Z))", out, flags=re.S)
+    for b in blocks:
+        first = b.strip().splitlines()[0][:200]
+        frames = re.findall(r"(mini_mcmc::[A-Za-z0-9_:<>]+)", b)
+        rec = {"sig": first, "first_mini_mcmc_frame": frames[0] if frames else None, "excerpt": b[:1200]}
+        (mine if frames else third).append(rec)
+    if "SANWL-OK" not in out and not blocks:
+        m = re.search(r"(panicked at .*?)(?:\nnote:|\Z)", out, flags=re.S)
+        mine.append({"sig": "workload assertion failed: " + (m.group(1)[:200].replace("\n", " ") if m else f"exit status {rc}"),
+                     "first_mini_mcmc_frame": None, "excerpt": out[-1500:]})
+    return mine, third
 
 
 def run(pid, tier, seed, cfg, log):
-    return []
+    if tier != "thorough" or pid not in PLAN or os.environ.get("VERIF_NO_SANITIZERS"):
+        return []
+    passes = []
+    built = {}
+    for tool, wl, size in PLAN[pid]:
+        if tool not in built:
+            built[tool] = _build(tool, log)
+        ok, build_s = built[tool]
+        rec = {"tool": tool, "workload": wl, "runs": 0, "executions": 0, "reports": [], "third_party_reports": 0, "build_s": round(build_s, 1)}
+        if not ok:
+            rec["status"] = "build failed: inconclusive"
+            passes.append(rec)
+            continue
+        t0 = time.time()
+        scratch = f"{SAN}/target-asan/scratch"
+        os.makedirs(scratch, exist_ok=True)
+        if tool == "miri":
+            n_seeds = 8 if wl in ("proto", "concurrent", "runner") else 1
+            flags = MIRIFLAGS + (f" -Zmiri-many-seeds={seed % 1000}..{seed % 1000 + n_seeds}" if n_seeds > 1 else f" -Zmiri-seed={seed % 1000}")
+            cmd = ["cargo", "+nightly", "miri", "run", "--offline", "--", wl, str(size)]
+            env = _env({"MIRIFLAGS": flags, "CARGO_TARGET_DIR": f"{SAN}/target-miri"})
+            runs = n_seeds
+        elif tool == "tsan":
+            cmd = [f"{SAN}/target-tsan/{TARGET}/debug/sanwl", wl, str(size)]
+            env = _env({"TSAN_OPTIONS": "halt_on_error=0 exitcode=66 second_deadlock_stack=1"})
+            runs = 5
+        else:
+            cmd = [f"{SAN}/target-asan/{TARGET}/debug/sanwl", wl, str(size), scratch]
+            env = _env({"ASAN_OPTIONS": "detect_leaks=1:halt_on_error=0"})
+            runs = 3
+        outs = []
+        reps = 1 if tool == "miri" else runs
+        timed_out = False
+        for _ in range(reps):
+            try:
+                p = subprocess.run(cmd, cwd=SAN, env=env, stdout=subprocess.PIPE, stderr=subprocess.STDOUT, text=True, timeout=3600)
+                outs.append((p.stdout, p.returncode))
+            except subprocess.TimeoutExpired:
+                timed_out = True
+                break
+        rec["runs"] = runs
+        rec["executions"] = runs
+        for out, rc in outs:
+            mine, third = _classify(tool, out, rc)
+            rec["reports"] += mine
+            rec["third_party_reports"] += len(third)
+            rec["ok_lines"] = rec.get("ok_lines", 0) + out.count("SANWL-OK")
+        rec["status"] = "watchdog: inconclusive" if timed_out else ("clean" if not rec["reports"] else "reports")
+        rec["wall_s"] = round(time.time() - t0, 1)
+        # dedupe reports by signature
+        seen, uniq = set(), []
+        for r in rec["reports"]:
+            if r["sig"] not in seen:
+                seen.add(r["sig"])
+                uniq.append(r)
+        rec["reports"] = uniq
+        log(f"   sanitizer pass {tool}:{wl} runs={runs} status={rec['status']} third_party={rec['third_party_reports']} wall={rec['wall_s']}s")
+        passes.append(rec)
+    return passes
